@@ -261,11 +261,15 @@ func refVerdict(tok string, key []byte, now time.Time, idpState func(string) str
 	if info.Alg != "HS256" {
 		return mustReject, "alg " + info.Alg, true, at
 	}
-	if !info.MACOK {
+	if !info.MACOK && !info.MACCanon {
 		return mustReject, "mac", true, at
 	}
 	verdict = mustAccept
 	reason = "ok"
+	if !info.MACOK {
+		// non-canonical spelling of segments that decode to the bytes of a properly signed token
+		verdict, reason = unspec, "non-canonical base64 of a signed token"
+	}
 	for h := range info.Header {
 		if h != "alg" && h != "typ" && h != "kid" {
 			verdict, reason = unspec, "extra header "+h
